@@ -24,6 +24,7 @@ import (
 type c16Op struct {
 	Kind string `json:"kind"` // record | run | sign | verifysig | dumpload | verify | loadkey
 	Arg  int    `json:"arg"`
+	Reps int    `json:"reps"` // the call is repeated (cheap operations are hammered)
 }
 
 type c16Case struct {
@@ -53,7 +54,12 @@ func c16Gen(t *rapid.T) c16Case {
 			if k == "" || rapid.IntRange(0, 3).Draw(t, "other") == 0 {
 				k = rapid.SampledFrom(kinds).Draw(t, "kind")
 			}
-			ops = append(ops, c16Op{Kind: k, Arg: rapid.IntRange(0, 7).Draw(t, "arg")})
+			reps := 1
+			switch k {
+			case "sign", "verifysig", "dumpload", "loadkey", "record":
+				reps = rapid.SampledFrom([]int{1, 1, 5, 20, 40}).Draw(t, "reps")
+			}
+			ops = append(ops, c16Op{Kind: k, Arg: rapid.IntRange(0, 7).Draw(t, "arg"), Reps: reps})
 		}
 		c.Goroutines = append(c.Goroutines, ops)
 		c.Symlinks = append(c.Symlinks, rapid.IntRange(0, 2).Draw(t, "symlinks") > 0)
@@ -102,6 +108,16 @@ func c16World(g int) hx.World {
 }
 
 func c16Do(st *c16State, op c16Op, g, i int, mode string) string {
+	first := c16Once(st, op, g, i, mode)
+	for r := 1; r < op.Reps; r++ {
+		if again := c16Once(st, op, g, i, mode); again != first {
+			return fmt.Sprintf("repetition %d differs: %.300s vs %.300s", r, again, first)
+		}
+	}
+	return first
+}
+
+func c16Once(st *c16State, op c16Op, g, i int, mode string) string {
 	defer func() { recover() }()
 	res := func(v any, err error) string {
 		if err != nil {
@@ -119,7 +135,7 @@ func c16Do(st *c16State, op c16Op, g, i int, mode string) string {
 		m, err := intoto.RecordArtifacts(paths, []string{"sha256"}, nil, []string{st.tree + "/"}, op.Arg%2 == 0, op.Arg%3 != 0)
 		return res(m, err)
 	case "run":
-		md, err := intoto.InTotoRun("s", st.tree, []string{st.tree}, []string{st.tree}, []string{filepath.Join(hx.BinDir(), "emit"), fmt.Sprintf("w:made-%d-%d.txt:x", g, i), "o:100"},
+		md, err := intoto.InTotoRun("s", st.tree, []string{st.tree}, []string{st.tree}, []string{filepath.Join(hx.BinDir(), "emit"), fmt.Sprintf("w:made-%d-%d.txt:x", g, i), "O:300", "E:100"},
 			hx.PoolKey(st.keyN).Full(), []string{"sha256"}, nil, []string{st.tree + "/"}, false, op.Arg%2 == 0, op.Arg%4 >= 2)
 		if err != nil {
 			return "error"
@@ -127,7 +143,8 @@ func c16Do(st *c16State, op c16Op, g, i int, mode string) string {
 		l, _ := md.GetPayload().(intoto.Link)
 		return res(map[string]any{"m": l.Materials, "p": l.Products, "rv": l.ByProducts["return-value"], "out": l.ByProducts["stdout"]}, md.VerifySignature(hx.PoolKey(st.keyN).Pub()))
 	case "sign":
-		link := intoto.Link{Type: "link", Name: fmt.Sprintf("l-%d-%d", g, i), Materials: map[string]intoto.HashObj{}, Products: map[string]intoto.HashObj{"x": {"sha256": "aa"}}, ByProducts: map[string]any{}, Command: []string{}, Environment: map[string]any{}}
+		link := intoto.Link{Type: "link", Name: fmt.Sprintf("l-%d-%d", g, i), Materials: map[string]intoto.HashObj{}, Products: map[string]intoto.HashObj{"x": {"sha256": "aa"}},
+			ByProducts: map[string]any{"stdout": fmt.Sprintf("goroutine %d\nop %d\ttab\r\n", g, i), "return-value": float64(0)}, Command: []string{"make\n", "all"}, Environment: map[string]any{}}
 		var md intoto.Metadata
 		if op.Arg%2 == 0 {
 			md = &intoto.Metablock{Signed: link, Signatures: []intoto.Signature{}}
@@ -141,7 +158,16 @@ func c16Do(st *c16State, op c16Op, g, i int, mode string) string {
 		if err := md.Sign(hx.PoolKey(st.keyN).Full()); err != nil {
 			return "error"
 		}
-		return res(len(md.Sigs()), md.VerifySignature(hx.PoolKey(st.keyN).Pub()))
+		p := filepath.Join(st.dir, fmt.Sprintf("signed-%s-%d.json", mode, i))
+		if err := md.Dump(p); err != nil {
+			return "error"
+		}
+		sf, err := hx.ReadSignedFile(p)
+		if err != nil {
+			return "unreadable dump: " + err.Error()
+		}
+		// the dumped content must be this goroutine's link, whatever the others are doing
+		return res(map[string]any{"sigs": len(md.Sigs()), "content": sf.Signed}, md.VerifySignature(hx.PoolKey(st.keyN).Pub()))
 	case "verifysig":
 		key := hx.PoolKey(st.keyN).Pub()
 		if op.Arg%3 == 0 {
